@@ -38,7 +38,12 @@ def extend_contract(B, cls):
     tyme0 = sched_tyme(B, sched)
     deeds0 = deeds_of(B, sched)
     doers0 = doers_of(B, sched)
+    _st = ctx.st(sched)
+    deque0, list0 = _st.get("deeds") or _st.get("_deeds"), _st.get("doers") or _st.get("_doers")
     B.call(sched, B.list(arg), qual=cls + ".extend")
+    # frame: extend() may be called by a doer WHILE recur is walking .deeds -- recur holds that deque object, so the new deeds must
+    # go into the SAME object (a rebound .deeds would leave the pass in progress working on a stale one)
+    B.prove("deeds-and-doers-are-extended-in-place (the same objects)", (ctx.st(sched).get("deeds") or ctx.st(sched).get("_deeds")) is deque0 and (ctx.st(sched).get("doers") or ctx.st(sched).get("_doers")) is list0, top=True, props=["C06", "C05", "C01"])
     tr = w.trace
     deeds = deeds_of(B, sched)
     dl = doers_of(B, sched)
@@ -62,12 +67,12 @@ def extend_contract(B, cls):
     B.no_other_exception()
 
 
-@contract(DOIST + ".extend", props=["C06", "C01", "C02"], name=DOIST + ".extend[bounded]")
+@contract(DOIST + ".extend", props=["C06", "C01", "C02", "C05"], name=DOIST + ".extend[bounded]")
 def doist_extend(B):
     extend_contract(B, DOIST)
 
 
-@contract(DODOER + ".extend", props=["C06", "C01", "C02"], name=DODOER + ".extend[bounded]")
+@contract(DODOER + ".extend", props=["C06", "C01", "C02", "C05"], name=DODOER + ".extend[bounded]")
 def dodoer_extend(B):
     extend_contract(B, DODOER)
 
